@@ -8,14 +8,16 @@
    goroutine that makes it (so the log order respects happens-before):
 
      application goroutines (call logged before the call, return after it)
-       wcall{w,size}            wret{w,n,err}          err: "nil" | "err"
+       wcall{w,size,pn,perr}    wret{w,n,err}          err: "nil" | "err"
        rcall{r,buf,pn,poff,perr} rret{r,n,off,err}     err: "nil" | "eof" | "err"
-       ccall{c}                 cret{c,err}
+       ccall{c,perr}            cret{c,err}
          off   = where the returned bytes sit in the stream the peer sent (the
                  driver compares them with the keyed filler; -1 = found nowhere)
-         pn, poff, perr = the result of this very Read, copied by the check from
-                 its rret line (a prophecy: the model's hand-over RXfer needs the
-                 byte count when it happens, the log has it only at the return)
+         pn, poff, perr = the result of this very call, copied by the check from
+                 its rret / wret line (a prophecy: the model's hand-over RXfer needs
+                 the byte count when it happens, the log has it only at the return;
+                 and explanations in which a call heads for another result than the
+                 logged one are not pursued)
      the peer (raw gorilla connection; sends logged before they are made)
        psend{k,len}  pclose{code}  pcut
        precv{w,off,len,t}       a message arrived at the peer: bytes of writer w at
@@ -40,48 +42,60 @@ TraceNat == Nat
 TraceLog == ndJsonDeserialize("trace.ndjson")
 
 VARIABLES l,       \* index of the next observation to explain
-          proph    \* [Readers -> [n, off, err]]: the logged result of the Read in progress
-tvars == <<vars, l, proph>>
+          proph,   \* [Readers -> [n, off, err]]: the logged result of the Read in progress
+          wproph,  \* [Writers -> [n, err]]: the logged result of the Write in progress
+          cproph,  \* [Closers -> "nil" | "err" | "none"]: the logged result of the Close in progress
+          exp,     \* the messages the peer logs in this trace, in order (copied by the check from the
+                   \* precv lines to the reset line: a prophecy, used to stop explanations that put a
+                   \* message on the socket which the peer is not going to see next)
+          nprecv   \* precv observations consumed in this trace
+tvars == <<vars, l, proph, wproph, cproph, exp, nprecv>>
+pvars == <<proph, wproph, cproph, exp, nprecv>>
 
 Ev == TraceLog[l]
 Is(name) == l <= Len(TraceLog) /\ Ev.ev = name
 Step == l' = l + 1
 P0 == [n |-> 0, off |-> 0, err |-> "none"]
+W0 == [n |-> 0, err |-> "none"]
 
-TInit == Init /\ l = 1 /\ proph = [r \in Readers |-> P0] /\ TLCSet(1, 1)
+TInit == Init /\ l = 1 /\ proph = [r \in Readers |-> P0] /\ wproph = [w \in Writers |-> W0] /\ cproph = [c \in Closers |-> "none"] /\ exp = <<>> /\ nprecv = 0 /\ TLCSet(1, 1)
 
-EvWCall == Is("wcall") /\ Ev.w \in Writers /\ WCall(Ev.w, Ev.size) /\ Step /\ UNCHANGED proph
+EvWCall ==
+  /\ Is("wcall") /\ Ev.w \in Writers /\ WCall(Ev.w, Ev.size) /\ Step /\ UNCHANGED <<proph, cproph, exp, nprecv>>
+  /\ wproph' = [wproph EXCEPT ![Ev.w] = [n |-> Ev.pn, err |-> Ev.perr]]
 EvWRet ==
-  /\ Is("wret") /\ Ev.w \in Writers /\ Step /\ UNCHANGED proph
+  /\ Is("wret") /\ Ev.w \in Writers /\ Step /\ UNCHANGED pvars
   /\ wr[Ev.w].pc = "got" /\ wr[Ev.w].done = Ev.n /\ ((Ev.err = "nil") = (wr[Ev.w].res = "nil"))
   /\ WRet(Ev.w)
 EvRCall ==
-  /\ Is("rcall") /\ Ev.r \in Readers /\ RCall(Ev.r, Ev.buf) /\ Step
+  /\ Is("rcall") /\ Ev.r \in Readers /\ RCall(Ev.r, Ev.buf) /\ Step /\ UNCHANGED <<wproph, cproph, exp, nprecv>>
   /\ proph' = [proph EXCEPT ![Ev.r] = [n |-> Ev.pn, off |-> Ev.poff, err |-> Ev.perr]]
 EvRRet ==
-  /\ Is("rret") /\ Ev.r \in Readers /\ Step /\ UNCHANGED proph
+  /\ Is("rret") /\ Ev.r \in Readers /\ Step /\ UNCHANGED pvars
   /\ rd[Ev.r].pc = "got" /\ rd[Ev.r].res = Ev.err
   /\ (Ev.err = "nil" => (rd[Ev.r].off = Ev.off /\ rd[Ev.r].n = Ev.n))
   /\ (Ev.err # "nil" => Ev.n = 0)
   /\ RRet(Ev.r)
-EvCCall == Is("ccall") /\ Ev.c \in Closers /\ CCall(Ev.c) /\ Step /\ UNCHANGED proph
+EvCCall ==
+  /\ Is("ccall") /\ Ev.c \in Closers /\ CCall(Ev.c) /\ Step /\ UNCHANGED <<proph, wproph, exp, nprecv>>
+  /\ cproph' = [cproph EXCEPT ![Ev.c] = Ev.perr]
 EvCRet ==
-  /\ Is("cret") /\ Ev.c \in Closers /\ Step /\ UNCHANGED proph
+  /\ Is("cret") /\ Ev.c \in Closers /\ Step /\ UNCHANGED pvars
   /\ cl[Ev.c].pc = "got" /\ (cl[Ev.c].res = "ok" => Ev.err = "nil")
   /\ CRet(Ev.c)
 
-EvPSend  == Is("psend")  /\ PeerSend(Ev.k, Ev.len) /\ Step /\ UNCHANGED proph
-EvPClose == Is("pclose") /\ PeerClose(Ev.code)     /\ Step /\ UNCHANGED proph
-EvPCut   == Is("pcut")   /\ PeerCut                /\ Step /\ UNCHANGED proph
+EvPSend  == Is("psend")  /\ PeerSend(Ev.k, Ev.len) /\ Step /\ UNCHANGED pvars
+EvPClose == Is("pclose") /\ PeerClose(Ev.code)     /\ Step /\ UNCHANGED pvars
+EvPCut   == Is("pcut")   /\ PeerCut                /\ Step /\ UNCHANGED pvars
 EvPRecv ==
-  /\ Is("precv") /\ Step /\ UNCHANGED proph
+  /\ Is("precv") /\ Step /\ UNCHANGED <<proph, wproph, cproph, exp>> /\ nprecv' = nprecv + 1
   /\ nrecv < Len(sentlog)
   /\ LET c == sentlog[nrecv + 1] IN
        /\ Ev.t = "bin" /\ c.len = Ev.len
        /\ (Ev.len > 0 => (c.w = Ev.w /\ c.off = Ev.off))
   /\ PeerRecv
 EvPEnd ==
-  /\ Is("pend") /\ Step /\ UNCHANGED proph
+  /\ Is("pend") /\ Step /\ UNCHANGED pvars
   /\ \/ Ev.class = "close" /\ PeerEndClose
      \/ Ev.class = "err" /\ PeerEndErr
 
@@ -93,17 +107,17 @@ RestSteps ==
   \/ (\E r \in Readers : ReaderStep(r))
   \/ (\E w \in Writers : WriterStep(w))
   \/ (\E c \in Closers : CloserStep(c))
-EvRest == Is("rest") /\ ~ENABLED RestSteps /\ Step /\ UNCHANGED <<vars, proph>>
+EvRest == Is("rest") /\ ~ENABLED RestSteps /\ Step /\ UNCHANGED <<vars, pvars>>
 
 AllReturned ==
   /\ \A r \in Readers : rd[r].pc = "idle"
   /\ \A w \in Writers : wr[w].pc = "idle"
   /\ \A c \in Closers : cl[c].pc \in {"idle", "ret"}
-EvGone == Is("gone") /\ LoopsGone /\ AllReturned /\ Step /\ UNCHANGED <<vars, proph>>
-EvLeak == Is("leak") /\ AtRest /\ ~LoopsGone /\ Step /\ UNCHANGED <<vars, proph>>
+EvGone == Is("gone") /\ LoopsGone /\ AllReturned /\ Step /\ UNCHANGED <<vars, pvars>>
+EvLeak == Is("leak") /\ AtRest /\ ~LoopsGone /\ Step /\ UNCHANGED <<vars, pvars>>
 
 EvReset ==
-  /\ Is("reset") /\ Step /\ proph' = [r \in Readers |-> P0]
+  /\ Is("reset") /\ Step /\ proph' = [r \in Readers |-> P0] /\ wproph' = [w \in Writers |-> W0] /\ cproph' = [c \in Closers |-> "none"] /\ exp' = Ev.pr /\ nprecv' = 0
   /\ win' = <<>> /\ psent' = 0 /\ pstate' = "open" /\ pcode' = 0 /\ nmsg' = 0
   /\ rl' = "next" /\ rmsg' = NoMsg /\ p1r' = FALSE /\ p1w' = "open" /\ rpos' = 0
   /\ rd' = [r \in Readers |-> Rd0] /\ nr' = [r \in Readers |-> 0]
@@ -155,9 +169,11 @@ SilentRead(r) ==
    observation that is waited for.  The two directions influence each other
    only through steps that disable steps of the other direction: the
    statements of Close (so everything is offered while a Close is in progress),
-   the echo of a close frame, which makes later sends fail (so everything is
-   offered while a close frame is unread), and a reset after the peer cut the
-   connection (outbound steps are offered for inbound observations then).
+   the echo of a close frame, which makes later sends fail (so inbound steps
+   are offered for outbound observations while a close frame is unread, and
+   outbound steps for inbound observations when the close frame is the next
+   thing readLoop consumes), and a reset after the peer cut the connection
+   (outbound steps are offered for inbound observations then).
    Reduce = TRUE is the fast path of the check: a trace it accepts is accepted
    (fewer explanations are tried, none is invented); a trace it does not accept
    is validated again with Reduce = FALSE, where every silent step is offered
@@ -165,15 +181,34 @@ SilentRead(r) ==
 CONSTANT Reduce
 CloseUnread == \E i \in DOMAIN win : win[i].k = "close"
 ClosePending == \E c \in Closers : cl[c].pc \in {"c1", "c2", "c3", "c4"}
+(* The statements of Close enable nothing that a successful result or a message
+   at the peer needs; while such an observation is waited for they are postponed. *)
+CloseMatters == ~Reduce \/ ~(Ev.ev = "precv" \/ (Ev.ev \in {"wret", "rret"} /\ Ev.err = "nil"))
 InboundMatters  == ~Reduce \/ ClosePending \/ CloseUnread \/ Ev.ev \notin {"wret", "precv"}
-OutboundMatters == ~Reduce \/ ClosePending \/ CloseUnread \/ tcp = "pcut" \/ Ev.ev # "rret"
+CloseNext == rl = "next" /\ win # <<>> /\ Head(win).k = "close"     \* the echo is readLoop's next step
+OutboundMatters == ~Reduce \/ ClosePending \/ CloseNext \/ tcp = "pcut" \/ Ev.ev # "rret"
+(* The Write steps are taken only towards the logged result of that Write
+   (pn, perr copied by the check from the wret line to the wcall line). *)
+SilentWrite(w) ==
+  \/ WCheck(w) /\ (wr'[w].pc = "got" => (wproph[w].err = "err" /\ wproph[w].n = 0))
+  \/ WAcquire(w)
+  \/ (wr[w].done < wproph[w].n \/ (wr[w].size = 0 /\ wproph[w].err = "nil")) /\ WXfer(w)
+  \/ wproph[w].err = "nil" /\ WDone(w)
+  \/ wproph[w].err = "err" /\ wr[w].done = wproph[w].n /\ WFail(w)
+
+(* The k-th message put on the socket is the k-th message the peer sees (as far as it sees any). *)
+SentCount == IF History THEN Len(sentlog) ELSE nprecv + Len(sentlog)
+SendExpected ==
+  SentCount < Len(exp) =>
+    LET e == exp[SentCount + 1] IN e[3] = wchunk.len /\ (e[3] > 0 => (e[1] = wchunk.w /\ e[2] = wchunk.off))
 Silent ==
   /\ l <= Len(TraceLog) /\ ~Is("reset")
   /\ (Reduce => ~Ready)
-  /\ UNCHANGED <<l, proph>>
+  /\ UNCHANGED <<l, pvars>>
   /\ \/ InboundMatters /\ (RlStep \/ (\E r \in Readers : SilentRead(r)))
-     \/ OutboundMatters /\ (WlStep \/ (\E w \in Writers : WriterStep(w)))
-     \/ (\E c \in Closers : CloserStep(c))
+     \/ OutboundMatters /\ (WlReadFail \/ WlSendFail \/ (SendExpected /\ WlSendOK) \/ (\E w \in Writers : SilentWrite(w)))
+     \/ CloseMatters /\ (\E c \in Closers : C1(c) \/ C2(c) \/ C3(c) \/ C3PeerGone(c)
+                                                \/ ((cproph[c] = "err" => tcp = "lclosed") /\ C4(c)))   \* a Close that failed was not the first
 
 TNext ==
   \/ EvWCall \/ EvWRet \/ EvRCall \/ EvRRet \/ EvCCall \/ EvCRet
